@@ -336,7 +336,7 @@ Section Sim.
       { simpl in H. inversion H; subst ns h. simpl. rewrite extend_cur_ext.
         rewrite (ext_ext _ _ _ _ _ _ Hs1). rewrite Hshr1. reflexivity. }
       destruct (den_nested env orc rd top (set_incl (s_incl (shr s) ++ [a]) (shr s))
-                  (join nl (splitlines file)) (0 + 1) false iho)
+                  (join nl (split_lines file)) (0 + 1) false iho)
         as [[[direct h'] b]|] eqn:E; [|discriminate].
       simpl in H. inversion H; subst ns h b.
       set (s1' := set_shr (set_incl (s_incl (shr s) ++ [a]) (shr s)) s1).
@@ -375,7 +375,7 @@ Section Sim.
       destruct literal; [simpl in H; inversion H; reflexivity|].
       destruct (mem_str a (o_source orc :: s_incl h)); [simpl in H; inversion H; reflexivity|].
       destruct (den_nested env orc rd false (set_incl (s_incl h ++ [a]) h)
-                  (join nl (splitlines file)) (0 + 1) false iho)
+                  (join nl (split_lines file)) (0 + 1) false iho)
         as [[[direct h2] b2]|] eqn:E; [|discriminate].
       simpl in H. inversion H; subst. eapply noflag_nested; eauto.
     - destruct (o_other_directive orc name (p_args p) (p_optblock p) (p_body p) (p_off p - pre)%nat
